@@ -247,8 +247,10 @@ def tla_fn(sig):
         return {"f": "sel", "args": [tla_type(t) for t in sig[1]], "k": sig[2]}
     if f == "sum":
         return {"f": "sum", "args": [tla_type(t) for t in sig[1]], "res": tla_type(sig[2])}
-    if f in ("wr", "rdi", "bump"):
+    if f in ("wr", "rdi", "bump", "isum"):
         return {"f": f, "t": tla_type(sig[1])}
+    if f == "asum":
+        return {"f": "asum", "s": tla_type(sig[1])}
     if f == "seterr":
         return {"f": "seterr"}
     if f == "smake":
@@ -266,7 +268,7 @@ def arg_types(sig):
         return list(sig[1])
     if f == "wr":
         return ["p_" + sig[1], sig[1]]
-    if f in ("rdi", "bump"):
+    if f in ("rdi", "bump", "isum", "asum"):
         return ["p_" + sig[1], "i32"]
     if f == "seterr":
         return ["i32"]
@@ -332,6 +334,11 @@ def render_func(name, sig):
         return ("void %s(%s);" % (name, plain),
                 "void %s(%s) { int i; for (i = 0; i < a2; i++) a1[i] = (%s)((%s)a1[i] + (%s)(i + 1)); }"
                 % (name, params, c, u, u))
+    if f in ("isum", "asum"):
+        terms = (["a1[i]"] if f == "isum" else ["a1[i].f%d" % (j + 1) for j in range(len(STRUCTS[sig[1]]))])
+        return ("long long %s(%s);" % (name, plain),
+                "long long %s(%s) { unsigned long long r = 0; int i; for (i = 0; i < a2; i++) { %s } return (long long)r; }"
+                % (name, params, " ".join("r += (unsigned long long)%s;" % t for t in terms)))
     if f == "seterr":
         return "int %s(int);" % name, "int %s(int a1) { int o = errno; errno = a1; return o; }" % name
     if f == "smake":
@@ -367,7 +374,7 @@ def parse_gen(out, tla_tuples, parse_value):
         fam = vals[0]
         if fam in ("sel", "sum"):
             sigs.append((fam, tuple(vals[1]), vals[2]))
-        elif fam in ("wr", "rdi", "bump", "smake"):
+        elif fam in ("wr", "rdi", "bump", "smake", "isum", "asum"):
             sigs.append((fam, vals[1]))
         elif fam == "sget":
             sigs.append((fam, vals[1], vals[2]))
@@ -583,6 +590,35 @@ class Builder:
              "float": ["float", fhex(0.0)]}
         return m[c]
 
+    def nonzero(self, t):
+        """an in-range value with every byte-pattern non-zero-ish (dirties a recycled heap block)"""
+        lo, hi = irange(t)
+        v = rand_in(self.rng, t)
+        return ["int", str(v if v != 0 else hi)]
+
+    def pstruct_arg(self, t, c, n):
+        """t = 'p_<struct>'; a list of n struct initializers"""
+        rng = self.rng
+        fields = STRUCTS[t[2:]]
+        full = lambda: ["list", [self.nonzero(f) for f in fields]]
+        if c == "sl_full": return ["list", [full() for _ in range(n)]]
+        if c == "sl_tuple": return ["tuple", [["tuple", full()[1]] for _ in range(n)]]
+        if c == "sl_short":
+            k = rng.randint(0, len(fields) - 1)
+            return ["list", [["list", full()[1][:k]] for _ in range(n)]]
+        if c == "sl_dict":
+            keep = rng.sample(range(len(fields)), rng.randint(0, len(fields) - 1))
+            return ["list", [["dict", [[i, self.nonzero(fields[i])] for i in keep]] for _ in range(n)]]
+        if c == "sl_empty": return ["list", [["list", []] for _ in range(n)]]
+        items = [full() for _ in range(n)]
+        j = rng.randrange(n)
+        if c == "sl_ovf": items[j] = ["list", [self.item_ovf(fields[0])] + full()[1][1:]]
+        elif c == "sl_long": items[j] = ["list", full()[1] + [["int", "1"]]]
+        elif c == "sl_badtype": items[j] = ["none"]
+        else:
+            return {"none": ["none"], "int0": ["int", "0"], "null": ["null", None], "str": ["str", "abc"]}[c]
+        return ["list", items]
+
     def field_ok(self, t, cells):
         if t.startswith("p_"):
             if self.rng.random() < 0.5:
@@ -619,10 +655,13 @@ class Builder:
         if c == "idx": return ["int", str(self.rng.randint(0, n - 1))]
         if c == "cnt": return ["int", str(self.rng.randint(0, n))]
         if c == "small": return ["int", str(self.rng.randint(0, 150))]
+        if c == "cntall": return ["int", str(n)]
         if t in INTS: return self.int_arg(t, c)
         if t == "bool": return self.bool_arg(c)
         if t == "char": return self.char_arg(c)
         if t in ("f32", "f64"): return self.float_arg(c)
+        if c == "cntall": return ["int", str(n)]
+        if t.startswith("p_s"): return self.pstruct_arg(t, c, n)
         if t.startswith("p_"): return self.ptr_arg(t, c, cells, n)
         return self.struct_arg(t, c, cells)
 
@@ -649,21 +688,36 @@ class Builder:
         table = self.cls[t]
         ok = [c for c, (e, _d, _w) in table.items() if e == "" and c not in self.exclude]
         bad = [c for c, (e, _d, _w) in table.items() if e != "" and c not in self.exclude]
-        if f in ("wr", "rdi", "bump") and pos == 0:
-            need = 1 if f == "rdi" else 2     # index into (exc, deref, writable)
+        if f in ("wr", "rdi", "bump", "isum", "asum") and pos == 0:
+            need = 1 if f in ("rdi", "isum", "asum") else 2     # index into (exc, deref, writable)
             ok = [c for c in ok if table[c][need]]
         if (f, pos) == ("rdi", 1): ok = ["idx"]
         if (f, pos) == ("bump", 1): ok = ["cnt"]
+        if f in ("isum", "asum") and pos == 1: ok = ["cntall"]
         if (f, pos) == ("seterr", 0): ok = ["small"]
         if f == "vsum" and pos == 0: ok = ["bytes"]
         return sorted(ok), sorted(bad)
 
-    def case(self, cid, fname, sig, pbad=0.25, force_ok=False, single_bad=False):
+    def big_n(self, sig):
+        """array lengths straddling the 640-byte alloca threshold of the conversion helpers"""
+        size = sum(size_of(f) for f in STRUCTS[sig[1]]) if sig[0] == "asum" else size_of(sig[1])
+        if sig[0] == "asum":
+            size = {"sA": 8, "sB": 24, "sE": 6, "sJ": 20}.get(sig[1], size)
+        k = max(1, 640 // size)
+        if k > 330:                   # one-byte items: a 641-item list is too slow to validate
+            return [1, 200]
+        return [1, k, k + 1, min(200, 4 * k)]
+
+    def case(self, cid, fname, sig, pbad=0.25, force_ok=False, single_bad=False, force=None):
         """One concrete call of `sig`; returns (case, expect)."""
         rng = self.rng
         at = arg_types(sig)
         cells, args, expect, classes = [], [], None, []
         n = rng.randint(1, 4)
+        if sig[0] in ("isum", "asum"):
+            n = rng.choice(self.big_n(sig))
+        if force is not None:
+            n = force[1]
         vfmt = ""
         vdescs = []
         if sig[0] == "vsum":
@@ -676,7 +730,9 @@ class Builder:
         first_exc = None
         for pos, t in enumerate(at):
             ok, bad = self.classes_for(sig, pos, t)
-            if force_ok or not bad or rng.random() >= pbad or (single_bad and (first_exc or expect)):
+            if force is not None and pos == 0:
+                c = force[0]
+            elif force_ok or not bad or rng.random() >= pbad or (single_bad and (first_exc or expect)):
                 c = rng.choice(ok)
             else:
                 c = rng.choice(bad)
@@ -685,7 +741,7 @@ class Builder:
             else:
                 d = self.arg(t, c, cells, n)
             classes.append(c)
-            exc = "" if c in ("idx", "cnt", "small") else self.cls[t][c][0]
+            exc = "" if c in ("idx", "cnt", "cntall", "small") else self.cls[t][c][0]
             if exc and first_exc is None:
                 first_exc = exc
             args.append(d)
@@ -705,6 +761,9 @@ class Builder:
             classes += list(sig[1])
         case = {"id": cid, "fname": fname, "cells": cells, "args": args, "errno": rng.randint(0, 150),
                 "classes": classes, "nargs": len(args)}
+        if sig[0] == "asum" and classes and classes[0] in ("sl_short", "sl_dict", "sl_empty") and len(args) == 2:
+            # the same call with fully initialised non-zero items first: leaves a dirty heap block of that size
+            case["prime"] = [self.pstruct_arg(at[0], "sl_full", n), ["int", str(n)]]
         return case, expect
 
 
